@@ -60,6 +60,34 @@ def renderToksFrom (p : PSt) : List XTok → List Char
 
 def renderToks (ts : List XTok) : List Char := renderToksFrom {} ts
 
+/-! ### The same printer with LapTimer's character spelling (what the file contains after the
+      encoder's replacer has run): a specification-level definition, see `replace_render` -/
+
+def renderAttrLT (a : String × List Char) : List Char :=
+  ' ' :: a.1.toList ++ ['=', '"'] ++ a.2.flatMap ltEscapeChar ++ ['"']
+
+def renderTokLT (p : PSt) : XTok → List Char × PSt
+  | .start n as =>
+    let (ind, p') := indentIn p
+    (ind ++ '<' :: n.toList ++ as.flatMap renderAttrLT ++ ['>'], p')
+  | .stop n =>
+    let (ind, p') := indentOut p
+    (ind ++ '<' :: '/' :: n.toList ++ ['>'], p')
+  | .text s => (s.flatMap ltEscapeChar, p)
+  | .bad _ => ([], p)
+
+def renderLTFrom (p : PSt) : List XTok → List Char
+  | [] => []
+  | t :: ts => let (out, p') := renderTokLT p t; out ++ renderLTFrom p' ts
+
+/-- element and attribute names free of '&' (every XML name is) -/
+def nameOk (n : String) : Bool := n.toList.all (· != '&')
+
+def tokOk : XTok → Bool
+  | .start n as => nameOk n && as.all (fun a => nameOk a.1)
+  | .stop n => nameOk n
+  | _ => true
+
 def xmlHeader : List Char := "<?xml version=\"1.0\" encoding=\"UTF-8\"?>\n".toList
 
 /-! ### Tokenizer (decoder side) -/
